@@ -32,7 +32,8 @@
     must.) *)
 From Coq Require Import List String Permutation.
 From Sheens Require Import Model.SioRecorder Spec.SioSpec Proofs.SioRouting Proofs.SioPersist Proofs.SioRestart
-     Proofs.SioCommute Proofs.SioRecorderFacts Proofs.SioHistory Proofs.SioUnwedged Proofs.SioUnresolved.
+     Proofs.SioCommute Proofs.SioRecorderFacts Proofs.SioHistory Proofs.SioUnwedged Proofs.SioUnresolved
+     Proofs.SioReportLive.
 From Sheens Require Proofs.SioIdsTie.
 Import ListNotations.
 Open Scope string_scope.
@@ -145,6 +146,102 @@ Theorem C15_round_order_irrelevant :
     /\ Permutation (rd_recips S rd1) (rd_recips S rd2)
     /\ Permutation (rd_batches S rd1) (rd_batches S rd2).
 Proof. exact (round_order_irrelevant S react decode_src resolves). Qed.
+(** what a crew reports is what the crew has.  First the invariant of the
+    change cache (Crew.changed) behind it, at any point of any history, for
+    every machine id with a cached change: a pending change that is no
+    deletion names a live machine; a cached state - whatever [c_deleted]
+    says - is the CURRENT state of a live machine; a pending deletion of a
+    machine that does not exist carries neither state nor source.  (A
+    pending deletion of a machine that exists - deleted and created again,
+    D14 - may carry a state, and may carry none although the machine is at
+    its default state: [C15_cache_live_sharp].)  No hypothesis on the
+    oracles *)
+Theorem C15_cache_live_reachable : forall fuel h c store,
+  run_history fuel (init_crew S, []) h = Done (c, store) ->
+  forall m ch, aget m (cache S c) = Some ch ->
+    (c_deleted S ch = false -> exists mc, aget m (machines S c) = Some mc)
+    /\ (forall st, c_state S ch = Some st ->
+        exists mc, aget m (machines S c) = Some mc /\ m_state S mc = st)
+    /\ (c_deleted S ch = true -> aget m (machines S c) = None -> c_state S ch = None /\ c_src S ch = None).
+Proof. exact (cache_live_reachable S react decode_src resolves src_eqb ord). Qed.
+
+(** [cache_live] (the statement above for one crew) holds for the empty crew
+    and every step of the model keeps it, from ANY crew that has it *)
+Theorem C15_cache_live_invariant :
+  cache_live S (init_crew S)
+  /\ forall c, cache_live S c ->
+       (forall m src st, cache_live S (set_machine S resolves c m src st))
+       /\ (forall m, cache_live S (delete_machine S c m))
+       /\ (forall m mc st, cache_live S (record_state S c m mc st))
+       /\ (forall op, cache_live S (do_op S resolves c op))
+       /\ (forall msg m c1 got b, present S react decode_src resolves c msg m = Done (c1, got, b) -> cache_live S c1)
+       /\ (forall msg c1 rd, run_machines S react decode_src resolves ord c msg = Done (c1, rd) -> cache_live S c1)
+       /\ (forall fuel q tr c1 trf, process S react decode_src resolves ord fuel c q tr = Done (c1, trf) -> cache_live S c1)
+       /\ (forall c1 out tm, get_changed S src_eqb ord c = (c1, out, tm) -> cache_live S c1 /\ cache S c1 = [])
+       /\ (forall fuel msg c1 r, process_msg S react decode_src resolves src_eqb ord fuel c msg = Done (c1, r) -> cache_live S c1)
+       /\ (forall fuel store h c1 store1 r,
+             hstep S react decode_src resolves src_eqb ord fuel (c, store) h = Done (c1, store1, r) -> cache_live S c1)
+       /\ (forall fuel store h c1 store1, run_history fuel (c, store) h = Done (c1, store1) -> cache_live S c1).
+Proof. exact (cache_live_invariant S react decode_src resolves src_eqb ord). Qed.
+
+(** GetChanged at any point of any history: the machines are left alone,
+    and for every report [(m, r)] it returns: if it is no deletion, machine
+    [m] exists and a state in the report is that machine's state; if it is a
+    deletion with a state (deleted and created again since the last report),
+    machine [m] exists and the state is its state; if it is a deletion
+    without a state, machine [m] does not exist and the report carries no
+    source.  The order oracle enumerates the keys of the map ([ord_perm]) *)
+Theorem C15_report_is_live_state : forall fuel h c store c' out tm,
+  run_history fuel (init_crew S, []) h = Done (c, store) ->
+  get_changed S src_eqb ord c = (c', out, tm) ->
+  machines S c' = machines S c
+  /\ forall m r, In (m, r) out ->
+       (c_deleted S r = false ->
+          exists mc, aget m (machines S c') = Some mc /\ forall st, c_state S r = Some st -> m_state S mc = st)
+       /\ (c_deleted S r = true -> forall st, c_state S r = Some st ->
+          exists mc, aget m (machines S c') = Some mc /\ m_state S mc = st)
+       /\ (c_deleted S r = true -> c_state S r = None -> aget m (machines S c') = None /\ c_src S r = None).
+Proof. exact (report_is_live_state S react decode_src resolves src_eqb ord ord_perm). Qed.
+
+(** the same for any crew VALUE whose cache has the invariant *)
+Theorem C15_report_is_live_state_any_crew : forall c c' out tm,
+  cache_live S c -> get_changed S src_eqb ord c = (c', out, tm) ->
+  machines S c' = machines S c
+  /\ forall m r, In (m, r) out ->
+       (c_deleted S r = false ->
+          exists mc, aget m (machines S c') = Some mc /\ forall st, c_state S r = Some st -> m_state S mc = st)
+       /\ (c_deleted S r = true -> forall st, c_state S r = Some st ->
+          exists mc, aget m (machines S c') = Some mc /\ m_state S mc = st)
+       /\ (c_deleted S r = true -> c_state S r = None -> aget m (machines S c') = None /\ c_src S r = None).
+Proof. exact (report_is_live_state_any_crew S src_eqb ord ord_perm). Qed.
+
+(** ProcessMsg at any point of any history: Result.Changed says the same
+    about the machines of the crew that ProcessMsg leaves behind *)
+Theorem C15_process_msg_reports_live_state : forall fuel h c store fuel' msg c1 r,
+  run_history fuel (init_crew S, []) h = Done (c, store) ->
+  process_msg S react decode_src resolves src_eqb ord fuel' c msg = Done (c1, r) ->
+  forall m rep, In (m, rep) (res_changed S r) ->
+       (c_deleted S rep = false ->
+          exists mc, aget m (machines S c1) = Some mc /\ forall st, c_state S rep = Some st -> m_state S mc = st)
+       /\ (c_deleted S rep = true -> forall st, c_state S rep = Some st ->
+          exists mc, aget m (machines S c1) = Some mc /\ m_state S mc = st)
+       /\ (c_deleted S rep = true -> c_state S rep = None -> aget m (machines S c1) = None /\ c_src S rep = None).
+Proof. exact (process_msg_reports_live_state S react decode_src resolves src_eqb ord ord_perm). Qed.
+
+(** in particular for every message of a history: the reports that the
+    consumer folds into its store at that step describe the crew at that
+    step *)
+Theorem C15_history_reports_live_state : forall fuel h c store msg c1 store1 r,
+  run_history fuel (init_crew S, []) h = Done (c, store) ->
+  hstep S react decode_src resolves src_eqb ord fuel (c, store) (OpMsg msg) = Done (c1, store1, Some r) ->
+  run_history fuel (init_crew S, []) (h ++ [OpMsg msg]) = Done (c1, store1)
+  /\ forall m rep, In (m, rep) (res_changed S r) ->
+       (c_deleted S rep = false ->
+          exists mc, aget m (machines S c1) = Some mc /\ forall st, c_state S rep = Some st -> m_state S mc = st)
+       /\ (c_deleted S rep = true -> forall st, c_state S rep = Some st ->
+          exists mc, aget m (machines S c1) = Some mc /\ m_state S mc = st)
+       /\ (c_deleted S rep = true -> c_state S rep = None -> aget m (machines S c1) = None /\ c_src S rep = None).
+Proof. exact (history_msg_reports_live_state S react decode_src resolves src_eqb ord ord_perm). Qed.
 End C15.
 
 Print Assumptions C15_store_tracks_crew.
@@ -155,6 +252,12 @@ Print Assumptions C15_restart_unobservable.
 Print Assumptions C15_restart_unobservable_any_crew.
 Print Assumptions C15_unresolvable_source_inert.
 Print Assumptions C15_round_order_irrelevant.
+Print Assumptions C15_cache_live_reachable.
+Print Assumptions C15_cache_live_invariant.
+Print Assumptions C15_report_is_live_state.
+Print Assumptions C15_report_is_live_state_any_crew.
+Print Assumptions C15_process_msg_reports_live_state.
+Print Assumptions C15_history_reports_live_state.
 
 (** Full strength across schedules is false without the property's
     commutation hypothesis: the order in which the batches of one round are
@@ -374,4 +477,185 @@ Proof.
   vm_compute in H. injection H as <- <-.
   split; [reflexivity|]. split; [reflexivity|]. split; [exact T|]. split; [exact R|].
   vm_compute. eexists _, _. repeat split.
+Qed.
+
+(** the reports are about the live crew: the hypothesis on the order oracle
+    of [C15_report_is_live_state] cannot be dropped from the MODEL's
+    statement (an "iteration order" that renames the keys of Crew.changed
+    makes GetChanged report a machine that does not exist; no Go map does
+    that) *)
+Theorem C15_report_live_needs_ord :
+  let c := set_machine unit (fun _ => true) (init_crew unit) "a" None None in
+  cache_live unit c
+  /\ exists c' out tm r,
+       get_changed unit (fun _ _ => true) ord_rename c = (c', out, tm)
+       /\ In ("zz", r) out /\ c_deleted unit r = false /\ aget "zz" (machines unit c') = None.
+Proof. exact report_live_needs_ord. Qed.
+Print Assumptions C15_report_live_needs_ord.
+
+(** non-vacuity of the report theorems on the recorder instance.  The
+    history: create a; a message that a reacts to; delete b, which never
+    existed; create c and delete it in one operation.  Every message's
+    Result.Changed, and what [C15_process_msg_reports_live_state] says about
+    each of them (the last conjuncts come from the theorem, not from
+    computation) *)
+Definition c15_live_ops : list (hop rcfg) :=
+  [OpMsg (JObj [("to", JStr "captain"); ("update", JObj [("a", c15_spec "L0" "fwd")])]);
+   OpMsg (JObj [("tag", JStr "one"); ("to", JStr "a")]);
+   OpMsg (JObj [("delete", JArr [JStr "b"]); ("to", JStr "captain")]);
+   OpMsg (JObj [("delete", JArr [JStr "c"]); ("to", JStr "captain"); ("update", JObj [("c", c15_spec "L2" "fwd")])])].
+Definition c15_live_state : mstate := mk_ms "flip" [("by", JStr "L0"); ("log", JArr [JArr [JStr "one"; JNull]])].
+
+Example C15_report_live_history :
+  exists c1 s1 r1 c2 s2 r2 c3 s3 r3 c4 s4 r4,
+    r_hstep 50 (init_crew rcfg, []) (nth 0 c15_live_ops (OpDel "")) = Done (c1, s1, Some r1)
+    /\ r_hstep 50 (c1, s1) (nth 1 c15_live_ops (OpDel "")) = Done (c2, s2, Some r2)
+    /\ r_hstep 50 (c2, s2) (nth 2 c15_live_ops (OpDel "")) = Done (c3, s3, Some r3)
+    /\ r_hstep 50 (c3, s3) (nth 3 c15_live_ops (OpDel "")) = Done (c4, s4, Some r4)
+    /\ r_run_history 50 (init_crew rcfg, []) c15_live_ops = Done (c4, s4)
+    /\ res_changed rcfg r1 = [("a", mk_chg false None (Some (mk_rcfg "L0" RFwd)))]
+    /\ res_changed rcfg r2 = [("a", mk_chg false (Some c15_live_state) None)]
+    /\ res_changed rcfg r3 = [("b", mk_chg true None None)]
+    /\ res_changed rcfg r4 = [("c", mk_chg true None None)]
+    /\ map fst (machines rcfg c4) = ["a"]
+    /\ (exists mc, aget "a" (machines rcfg c1) = Some mc)
+    /\ (exists mc, aget "a" (machines rcfg c2) = Some mc /\ m_state rcfg mc = c15_live_state)
+    /\ aget "b" (machines rcfg c3) = None
+    /\ aget "c" (machines rcfg c4) = None.
+Proof.
+  pose proof (C15_history_reports_live_state rcfg rreact rdecode rresolves rcfg_eqb ord_id ord_id_perm 50) as T.
+  destruct (r_hstep 50 (init_crew rcfg, []) (nth 0 c15_live_ops (OpDel ""))) as [[[c1 s1] [r1|]]| |] eqn:H1;
+    try (vm_compute in H1; discriminate).
+  destruct (r_hstep 50 (c1, s1) (nth 1 c15_live_ops (OpDel ""))) as [[[c2 s2] [r2|]]| |] eqn:H2;
+    try (exfalso; vm_compute in H1; injection H1 as <- <- <-; vm_compute in H2; discriminate).
+  destruct (r_hstep 50 (c2, s2) (nth 2 c15_live_ops (OpDel ""))) as [[[c3 s3] [r3|]]| |] eqn:H3;
+    try (exfalso; vm_compute in H1; injection H1 as <- <- <-; vm_compute in H2; injection H2 as <- <- <-;
+         vm_compute in H3; discriminate).
+  destruct (r_hstep 50 (c3, s3) (nth 3 c15_live_ops (OpDel ""))) as [[[c4 s4] [r4|]]| |] eqn:H4;
+    try (exfalso; vm_compute in H1; injection H1 as <- <- <-; vm_compute in H2; injection H2 as <- <- <-;
+         vm_compute in H3; injection H3 as <- <- <-; vm_compute in H4; discriminate).
+  exists c1, s1, r1, c2, s2, r2, c3, s3, r3, c4, s4, r4.
+  destruct (T [] _ _ _ _ _ _ eq_refl H1) as [R1 T1].
+  destruct (T _ _ _ _ _ _ _ R1 H2) as [R2 T2].
+  destruct (T _ _ _ _ _ _ _ R2 H3) as [R3 T3].
+  destruct (T _ _ _ _ _ _ _ R3 H4) as [R4 T4].
+  clear T R1 R2 R3.
+  split; [first [exact H1|reflexivity]|]. split; [exact H2|]. split; [exact H3|]. split; [exact H4|]. split; [exact R4|].
+  clear R4.
+  vm_compute in H1. injection H1 as <- <- <-. vm_compute in H2. injection H2 as <- <- <-.
+  vm_compute in H3. injection H3 as <- <- <-. vm_compute in H4. injection H4 as <- <- <-.
+  split; [reflexivity|]. split; [reflexivity|]. split; [reflexivity|]. split; [reflexivity|]. split; [reflexivity|].
+  split.
+  { destruct (T1 "a" _ (or_introl eq_refl)) as (A & _ & _). destruct (A eq_refl) as (mc & Em & _).
+    exists mc. exact Em. }
+  split.
+  { destruct (T2 "a" _ (or_introl eq_refl)) as (A & _ & _). destruct (A eq_refl) as (mc & Em & Es).
+    exists mc. split; [exact Em|]. apply Es. reflexivity. }
+  split.
+  { destruct (T3 "b" _ (or_introl eq_refl)) as (_ & _ & A). apply (A eq_refl eq_refl). }
+  destruct (T4 "c" _ (or_introl eq_refl)) as (_ & _ & A). apply (A eq_refl eq_refl).
+Qed.
+
+(** all kinds of reports in ONE Result.Changed: a and d exist; one message
+    to a makes a move and emit four operations to the captain - delete b
+    (never existed), create and delete c, delete d, create d again.  The
+    report of a carries its new state, b and c are pure deletions, d is a
+    deletion with the state and source of the machine that exists now (the
+    replacement report of D14) *)
+Definition c15_live_before : list (hop rcfg) :=
+  [OpMsg (JObj [("to", JStr "captain"); ("update", JObj [("a", c15_spec "L0" "fwd"); ("d", c15_spec "L1" "mute")])])].
+Definition c15_live_msg : json :=
+  JObj [("tag", JStr "go");
+        ("then", JArr [JObj [("delete", JArr [JStr "b"]); ("to", JStr "captain")];
+                       JObj [("delete", JArr [JStr "c"]); ("to", JStr "captain"); ("update", JObj [("c", c15_spec "L2" "fwd")])];
+                       JObj [("delete", JArr [JStr "d"]); ("to", JStr "captain")];
+                       JObj [("to", JStr "captain"); ("update", JObj [("d", c15_spec "L3" "rev")])]]);
+        ("to", JStr "a")].
+
+Example C15_report_live_nonvacuous :
+  exists c store c1 r st,
+    r_run_history 50 (init_crew rcfg, []) c15_live_before = Done (c, store)
+    /\ r_process_msg 50 c c15_live_msg = Done (c1, r)
+    /\ st = mk_ms "flip" [("by", JStr "L0"); ("log", JArr [JArr [JStr "go"; JNull]])]
+    /\ res_changed rcfg r
+       = [("a", mk_chg false (Some st) None);
+          ("b", mk_chg true None None);
+          ("c", mk_chg true None None);
+          ("d", mk_chg true (Some default_state) (Some (mk_rcfg "L3" RRev)))]
+    /\ (exists mc, aget "a" (machines rcfg c1) = Some mc /\ m_state rcfg mc = st)
+    /\ aget "b" (machines rcfg c1) = None
+    /\ aget "c" (machines rcfg c1) = None
+    /\ (exists mc, aget "d" (machines rcfg c1) = Some mc /\ m_state rcfg mc = default_state).
+Proof.
+  destruct (r_run_history 50 (init_crew rcfg, []) c15_live_before) as [[c store]| |] eqn:H;
+    try (vm_compute in H; discriminate).
+  destruct (r_process_msg 50 c c15_live_msg) as [[c1 r]| |] eqn:HP;
+    try (exfalso; vm_compute in H; injection H as <- <-; vm_compute in HP; discriminate).
+  exists c, store, c1, r, (mk_ms "flip" [("by", JStr "L0"); ("log", JArr [JArr [JStr "go"; JNull]])]).
+  pose proof (C15_process_msg_reports_live_state rcfg rreact rdecode rresolves rcfg_eqb ord_id ord_id_perm
+                _ _ _ _ _ _ _ _ H HP) as T.
+  split; [reflexivity|]. split; [exact HP|]. split; [reflexivity|].
+  vm_compute in H. injection H as <- <-. vm_compute in HP. injection HP as <- <-.
+  split; [reflexivity|].
+  split.
+  { destruct (T "a" _ (or_introl eq_refl)) as (A & _ & _). destruct (A eq_refl) as (mc & Em & Es).
+    exists mc. split; [exact Em|]. apply Es. reflexivity. }
+  split.
+  { destruct (T "b" _ (or_intror (or_introl eq_refl))) as (_ & _ & A). apply (A eq_refl eq_refl). }
+  split.
+  { destruct (T "c" _ (or_intror (or_intror (or_introl eq_refl)))) as (_ & _ & A). apply (A eq_refl eq_refl). }
+  destruct (T "d" _ (or_intror (or_intror (or_intror (or_introl eq_refl))))) as (_ & A & _).
+  apply (A eq_refl _ eq_refl).
+Qed.
+
+(** GetChanged after direct calls of the crew's API ([C15_report_is_live_state]),
+    and the sharpness of the cache invariant: a is created; then SetMachine
+    e with a state only, DeleteMachine b (never existed), DeleteMachine d and
+    SetMachine d again WITHOUT a state, SetMachine f and DeleteMachine f.
+    The cached change of d is a deletion without a state although d exists:
+    the state in d's report is read from the machine, not from the cache *)
+Definition c15_live_api : list (hop rcfg) :=
+  [OpMsg (JObj [("to", JStr "captain"); ("update", JObj [("a", c15_spec "L0" "fwd"); ("d", c15_spec "L1" "mute")])]);
+   OpSet "e" None (Some (mk_ms "" [("k", JNum 1)])); OpDel "b";
+   OpDel "d"; OpSet "d" (Some (mk_rcfg "L3" RRev)) None;
+   OpSet "f" None None; OpDel "f"].
+
+Example C15_cache_live_sharp :
+  exists c store c' out tm,
+    r_run_history 50 (init_crew rcfg, []) c15_live_api = Done (c, store)
+    /\ get_changed rcfg rcfg_eqb ord_id c = (c', out, tm)
+    /\ cache rcfg c
+       = [("b", mk_chg true None None);
+          ("d", mk_chg true None (Some (mk_rcfg "L3" RRev)));
+          ("e", mk_chg false (Some (mk_ms "start" [("k", JNum 1)])) None);
+          ("f", mk_chg true None None)]
+    /\ map fst (machines rcfg c) = ["a"; "d"; "e"]
+    /\ out
+       = [("b", mk_chg true None None);
+          ("d", mk_chg true (Some default_state) (Some (mk_rcfg "L3" RRev)));
+          ("e", mk_chg false (Some (mk_ms "start" [("k", JNum 1)])) None);
+          ("f", mk_chg true None None)]
+    /\ machines rcfg c' = machines rcfg c
+    /\ aget "b" (machines rcfg c') = None
+    /\ (exists mc, aget "d" (machines rcfg c') = Some mc /\ m_state rcfg mc = default_state)
+    /\ (exists mc, aget "e" (machines rcfg c') = Some mc /\ m_state rcfg mc = mk_ms "start" [("k", JNum 1)])
+    /\ aget "f" (machines rcfg c') = None.
+Proof.
+  destruct (r_run_history 50 (init_crew rcfg, []) c15_live_api) as [[c store]| |] eqn:H;
+    try (vm_compute in H; discriminate).
+  destruct (get_changed rcfg rcfg_eqb ord_id c) as [[c' out] tm] eqn:HG.
+  exists c, store, c', out, tm.
+  pose proof (C15_report_is_live_state rcfg rreact rdecode rresolves rcfg_eqb ord_id ord_id_perm
+                _ _ _ _ _ _ _ H HG) as [EM T].
+  split; [reflexivity|]. split; [exact HG|].
+  vm_compute in H. injection H as <- <-. vm_compute in HG. injection HG as <- <- <-.
+  split; [reflexivity|]. split; [reflexivity|]. split; [reflexivity|]. split; [exact EM|].
+  split.
+  { destruct (T "b" _ (or_introl eq_refl)) as (_ & _ & A). apply (A eq_refl eq_refl). }
+  split.
+  { destruct (T "d" _ (or_intror (or_introl eq_refl))) as (_ & A & _). apply (A eq_refl _ eq_refl). }
+  split.
+  { destruct (T "e" _ (or_intror (or_intror (or_introl eq_refl)))) as (A & _ & _).
+    destruct (A eq_refl) as (mc & Em & Es). exists mc. split; [exact Em|]. apply Es. reflexivity. }
+  destruct (T "f" _ (or_intror (or_intror (or_intror (or_introl eq_refl))))) as (_ & _ & A). apply (A eq_refl eq_refl).
 Qed.
